@@ -83,6 +83,10 @@ def loop_ordinals(funcnode):
 
 
 class StmtMixin:
+    def label_suffix(self):
+        tc = self.top_contract
+        return f'[{tc.label}]' if tc is not None and tc.label and self.frame.contract is tc else ''
+
     def exec_block(self, stmts):
         for s in stmts:
             self.exec_stmt(s)
@@ -173,7 +177,32 @@ class StmtMixin:
     def ex_Assign(self, node):
         v = self.ev(node.value)
         for t in node.targets:
+            v = self.apply_declared_kind(t, v)
             self.assign(t, v, node)
+
+    def apply_declared_kind(self, tgt, v):
+        """An empty list/dict assigned to a name whose element kinds the contract declares."""
+        tc = self.top_contract
+        kinds = getattr(tc, 'kinds', None) if tc is not None else None
+        if not kinds or not isinstance(v, VPtr):
+            return v
+        nm = tgt.id if isinstance(tgt, ast.Name) else (tgt.attr if isinstance(tgt, ast.Attribute) else None)
+        if nm not in kinds:
+            return v
+        c = self.cell(v)
+        k = kinds[nm]
+        if isinstance(c, ListCell) and c.seq is None:
+            Core.setcell(self, v, ListCell(z3.Empty(z3.SeqSort(kind_sort(k))), k))
+        elif isinstance(c, DictCell) and not c.items:
+            kk, vk = k[0], k[1]
+            ordered = len(k) > 2 and k[2]
+            Core.setcell(self, v, MapCell(kk, vk, z3.K(kind_sort(kk), False),
+                                          z3.K(kind_sort(kk), self.default_term(vk)), (), None,
+                                          z3.Empty(z3.SeqSort(kind_sort(kk))) if ordered else None))
+        return v
+
+    def default_term(self, kind):
+        return z3.Const('dflt_' + str(abs(hash(kind)) % 10**6), kind_sort(kind))
 
     def ex_AnnAssign(self, node):
         if node.value is not None:
@@ -456,7 +485,7 @@ class StmtMixin:
         n, elem = it
         if spec is None:
             spec = LoopSpec()
-        lname = f'{self.frame.func.key}::loop#{ordn}'
+        lname = f'{self.frame.func.key}{self.label_suffix()}::loop#{ordn}'
         env = self.frame.env
         # ---- initialisation
         env['_i'] = VInt(0)
@@ -513,7 +542,7 @@ class StmtMixin:
                 cnt += 1
                 if cnt > 400:
                     self.limit(f'while loop #{ordn} does not terminate concretely', node)
-        lname = f'{self.frame.func.key}::loop#{ordn}'
+        lname = f'{self.frame.func.key}{self.label_suffix()}::loop#{ordn}'
         for nm, inv in named(spec.invariant, 'inv'):
             self.check_spec(inv, f'{lname}::{nm}-init', 'inv-init')
         self.havoc_loop(node, spec, [])
@@ -582,7 +611,16 @@ class StmtMixin:
         elif isinstance(c, DictCell):
             self.setcell(ptr, DictCell({k: self.fresh_like(x, f'hv_{k}', node) for k, x in c.items.items()}))
         elif isinstance(c, ObjCell):
-            self.setcell(ptr, ObjCell(c.cls, {k: self.fresh_like(x, f'hv_{k}', node) for k, x in c.fields.items()}, c.spec))
+            types = getattr(self, '_havoc_types', {})
+            nf = {}
+            for k, x in c.fields.items():
+                if isinstance(x, VPtr):
+                    nf[k] = x           # the reference itself is not reassigned
+                elif k in types:
+                    nf[k] = self.fresh(types[k], f'hv_{k}')
+                else:
+                    nf[k] = self.fresh_like(x, f'hv_{k}', node)
+            self.setcell(ptr, ObjCell(c.cls, nf, c.spec))
         self.st.havoc_used = True
 
     def havoc_loop(self, node, spec, extra_targets):
@@ -593,7 +631,27 @@ class StmtMixin:
                 if n not in names:
                     names.append(n)
         self._havoc_set = set()
+        self._havoc_types = {k.split('.')[-1]: v for k, v in spec.types.items() if '.' in k}
+        self._havoc_fields = {}
         for loc in spec.modifies:
+            locnode = self.parse_spec(loc)
+            if isinstance(locnode, ast.Attribute):
+                base = self.res(self.eval_spec(locnode.value))
+                if isinstance(base, VPtr) and isinstance(self.cell(base), ObjCell):
+                    c = self.cell(base)
+                    cur = c.fields.get(locnode.attr)
+                    if isinstance(cur, VPtr):
+                        self.havoc_cell(cur, node)
+                        self._havoc_set.add(cur.addr)
+                    else:
+                        nf = dict(c.fields)
+                        if loc in spec.types:
+                            nf[locnode.attr] = self.fresh(spec.types[loc], locnode.attr)
+                        else:
+                            nf[locnode.attr] = self.fresh_like(cur, locnode.attr, node)
+                        Core.setcell(self, base, ObjCell(c.cls, nf, c.spec))
+                        self._havoc_fields.setdefault(base.addr, set()).add(locnode.attr)
+                    continue
             p = self.res(self.eval_spec(loc))
             if not isinstance(p, VPtr):
                 self.limit(f'loop modifies clause {loc!r} is not a heap location', node)
@@ -611,17 +669,28 @@ class StmtMixin:
 
     def begin_write_log(self):
         self._wl_stack = getattr(self, '_wl_stack', [])
-        self._wl_stack.append((set(), self._loop_head_addr, set(getattr(self, '_havoc_set', ()))))
+        fields = dict(getattr(self, '_havoc_fields', {}))
+        snap = {a: self.st.heap[a] for a in fields}
+        self._wl_stack.append((set(), self._loop_head_addr, set(getattr(self, '_havoc_set', ())), fields, snap))
 
     def end_write_log(self, spec, node):
-        writes, head, allowed = self._wl_stack.pop()
+        writes, head, allowed, fields, snap = self._wl_stack.pop()
+        for a in list(writes):
+            if a in fields:
+                c0, c1 = snap[a], self.st.heap[a]
+                same = set(c0.fields) == set(c1.fields) and all(
+                    c0.fields[k] is c1.fields[k] or (isinstance(c0.fields[k], VPtr) and isinstance(c1.fields[k], VPtr)
+                                                     and c0.fields[k].addr == c1.fields[k].addr)
+                    for k in c0.fields if k not in fields[a])
+                if same:
+                    writes.discard(a)
         bad = [a for a in writes if a < head and a not in allowed]
         if bad:
             self.limit('loop body writes a heap object that is not in the loop contract\'s modifies', node)
 
     def setcell(self, ptr, cell):
-        for (w, head, allowed) in getattr(self, '_wl_stack', []):
-            w.add(ptr.addr)
+        for ent in getattr(self, '_wl_stack', []):
+            ent[0].add(ptr.addr)
         Core.setcell(self, ptr, cell)
 
 
